@@ -42,6 +42,8 @@ class LockScenario:
             return [('release',)]
         elif self.kind == 'barrier':
             body = [('call',)]
+        elif self.script == 'with':
+            body = [('with',)]
         else:
             body = [('acquire',), ('enter',), ('leave',), ('release',)]
         return body * self.rounds
@@ -130,6 +132,22 @@ class LockScenario:
             return self.holders
         if name == 'call':
             return call(self.wrapped[c.cid])
+        if name == 'with':
+            # the context-manager form; Lock.locked() while holding it
+            def block():
+                with lock:
+                    self.acquired[c.cid] = self.acquired.get(c.cid, 0) + 1
+                    self.enter(c.cid)
+                    ex.before('cs', 'inside')
+                    seen = lock.locked() if hasattr(lock, 'locked') else None
+                    self.leave(c.cid)
+                    self.acquired[c.cid] -= 1
+                if seen is False:
+                    self.violations.append(
+                        ('locked-false-while-held', 'Lock.locked() returned '
+                         'False inside the with-block of its holder'))
+                return seen
+            return call(block)
         raise ValueError(op)
 
     def client_exit(self, ex, c):
@@ -173,7 +191,8 @@ class LockScenario:
             return problems
         for c in ex.clients:
             for op, result, _, _ in c.results:
-                if op[0] in ('acquire', 'call') and isinstance(result, Raises):
+                if op[0] in ('acquire', 'call', 'with') and \
+                        isinstance(result, Raises):
                     problems.append(('acquire-raised', '%r -> %r'
                                      % (op, result)))
                 if op[0] == 'release' and isinstance(result, Raises) and \
@@ -429,6 +448,8 @@ def plan(tier):
         units.append(('lock', 4, 1, 1, 'cache', 'own', 'normal', 1))
         units.append(('rlock', 4, 1, 1, 'cache', 'own', 'normal', 1))
     for mode in ('own', 'shared'):
+        for kind, value in (('lock', 1), ('rlock', 1), ('semaphore', 1)):
+            units.append((kind, 2, 1, value, 'cache', mode, 'with', None))
         units.append(('rlock', 2, 1, 1, 'cache', mode, 'nested', 3
                       if tier == 'thorough' else 2))
         units.append(('rlock', 2, 1, 1, 'cache', mode, 'wrong-release', None))
